@@ -957,6 +957,87 @@ theorem insertOp_chain (e : Expr) (h : WellGrouped (toT e)) :
   exact h2.symm
 
 
+/-! ### call names and argument lists -/
+
+/-- The lower-casing table shipped with the input only has entries for non-ASCII runes. -/
+def AsciiFix (tbl : List (Char × Char)) : Prop := ∀ p ∈ tbl, 128 ≤ p.1.toNat
+
+/-- ASCII and no capital letter: `strings.ToLower` leaves the rune alone. -/
+def lowB (name : List Char) : Bool :=
+  name.all (fun c => decide (c.toNat < 128) && !(decide (65 ≤ c.toNat) && decide (c.toNat ≤ 90)))
+
+theorem lowerStr_fix (tbl : List (Char × Char)) (h : AsciiFix tbl) (name : List Char) (hn : lowB name = true) :
+    lowerStr tbl name = name := by
+  unfold lowerStr
+  induction name with
+  | nil => rfl
+  | cons c t ih =>
+    unfold lowB at hn ih
+    simp only [List.all_cons, Bool.and_eq_true, decide_eq_true_eq, Bool.not_eq_true', Bool.and_eq_false_iff,
+      decide_eq_false_iff_not] at hn
+    obtain ⟨⟨h1, h2⟩, h3⟩ := hn
+    have hc : lowerRune tbl c = c := by
+      unfold lowerRune
+      rw [if_neg (by omega), if_neg (by omega), if_neg (by omega)]
+      have : tbl.find? (fun p => decide (p.1 = c)) = none := by
+        apply List.find?_eq_none.mpr
+        intro p hp
+        have := h p hp
+        simp only [decide_eq_true_eq]
+        intro e; rw [e] at this; omega
+      rw [this]
+    simp only [List.map_cons, hc, List.cons.injEq, true_and]
+    exact ih (by simpa using h3)
+
+/-- A function name that is printed bare and read back as itself: a non-keyword identifier
+without capital letters. -/
+def callNameB (name : List Char) : Bool := !identNeedsQuotes name && name != [] && lowB name
+
+theorem callNameB_facts {name : List Char} (h : callNameB name = true) :
+    lowB name = true ∧ lookup name = .IDENT ∧
+      ∃ c tl, name = c :: tl ∧ isIdentFirstChar c = true ∧ ∀ y ∈ tl, isIdentChar y = true := by
+  unfold callNameB at h
+  simp only [Bool.and_eq_true, Bool.not_eq_true', bne_iff_ne, ne_eq] at h
+  obtain ⟨⟨h1, h2⟩, h3⟩ := h
+  obtain ⟨hl, c, tl, e, hc, htl⟩ := (identNeedsQuotes_false_iff name h2).mp h1
+  exact ⟨h3, hl, c, tl, e, hc, htl⟩
+
+/-- What is printed after the first argument: `, ` and the next argument, and so on. -/
+def printMore : List Expr → List Char
+  | [] => []
+  | a :: rest => ',' :: ' ' :: (a.print ++ printMore rest)
+
+theorem printArgs_cons (a : Expr) (rest : List Expr) : printArgs (a :: rest) = a.print :: printArgs rest := rfl
+
+theorem joinArgs_cons (a : Expr) (rest : List Expr) :
+    joinWith [',', ' '] (printArgs (a :: rest)) = a.print ++ printMore rest := by
+  induction rest generalizing a with
+  | nil => simp [printArgs_cons, printArgs, joinWith, printMore]
+  | cons b rest ih =>
+    have e : joinWith [',', ' '] (printArgs (a :: b :: rest)) =
+        a.print ++ [',', ' '] ++ joinWith [',', ' '] (printArgs (b :: rest)) := rfl
+    rw [e, ih b]
+    simp [printMore]
+
+theorem nrs_identFirst {c : Char} (t : List Char) (h : isIdentFirstChar c = true) : NoRegexStart (c :: t) := by
+  obtain ⟨hws, _, _, _, hce⟩ := isIdentFirstChar_facts h
+  refine ⟨c, t, rfl, ?_, ?_, hce, hws, ?_⟩
+  · intro e; subst e; revert h; decide
+  · intro e; subst e; revert h; decide
+  · intro e; subst e; exact absurd h (by decide)
+
+theorem nrs_of (c : Char) (t : List Char)
+    (h : (c != '/' && c != '$' && c != eofRune && !isWhitespace c && c != '-') = true) : NoRegexStart (c :: t) := by
+  simp only [Bool.and_eq_true, bne_iff_ne, ne_eq, Bool.not_eq_true'] at h
+  obtain ⟨⟨⟨⟨h1, h2⟩, h3⟩, h4⟩, h5⟩ := h
+  exact ⟨c, t, rfl, h1, h2, h3, h4, fun e => absurd e h5⟩
+
+theorem nrs_digit {c : Char} (t : List Char) (h : isDigit c = true) : NoRegexStart (c :: t) := by
+  refine ⟨c, t, rfl, ?_, ?_, isDigit_ne_eof h, (isDigit_facts h).1, ?_⟩
+  · intro e; subst e; revert h; decide
+  · intro e; subst e; revert h; decide
+  · intro e; subst e; exact absurd h (by decide)
+
 /-! ## Part 6: the class of expressions and the three specifications -/
 
 /-- No NUL and no CR (Boolean form of `Expressible`). -/
@@ -1001,13 +1082,14 @@ mutual
   levels demand (an unparenthesised left operand binds at least as tightly as its parent, a right
   one strictly tighter — this is what excludes the `a / -1 * b` finding); leaves are variable
   references, string, integer (of either sign), unsigned and boolean literals, parenthesised
-  expressions. -/
+  expressions and — in the extended class `x = true` — calls of functions whose name is a
+  lower-case non-keyword identifier, with arguments of the class or regex literals. -/
   def rtOK (x : Bool) : Expr → Bool
     | .binary op l r =>
       op.isOperator && rtOK x l && (if op.isRegexOp then regexLitB r else rtOK x r) &&
         topGeB op.precedence l && topGeB (op.precedence + 1) r
     | .paren e => rtOK x e
-    | .call _ _ => false
+    | .call name args => x && callNameB name && rtOKArgs x args
     | .varRef v t => exprB v && (t == .Unknown)
     | .string v => exprB v
     | .integer n => decide (minInt64 ≤ n) && decide (n ≤ maxInt64)
@@ -1086,9 +1168,6 @@ theorem sepU_printOps (rest : List (Token × Expr)) (k : List Char) (hrest : ∀
 
 def IsFuel (f : Fail) : Prop := f = .fuel
 
-/-- The lower-casing table shipped with the input only has entries for non-ASCII runes. -/
-def AsciiFix (tbl : List (Char × Char)) : Prop := ∀ p ∈ tbl, 128 ≤ p.1.toNat
-
 /-- The table matters only for the extended class (call names, type casts). -/
 def TblOK (x : Bool) (s : PState) : Prop := x = true → AsciiFix s.lowerTbl
 
@@ -1109,6 +1188,225 @@ def SpecL (x : Bool) (F : Nat) : Prop := ∀ (s : PState) (root : Expr) (rest : 
 /-- `ParseExpr` on the printed form of an expression of the class. -/
 def SpecE (x : Bool) (F : Nat) : Prop := ∀ (s : PState) (e : Expr) (k : List Char), TblOK x s → rtOK x e = true → SepC k →
   AtW s (e.print ++ k) → wp (parseExpr F) s (fun e' s' => e' = e ∧ At s' k ∧ Same s s') IsFuel
+
+/-- `parseCall` after the opening parenthesis. -/
+def SpecC (x : Bool) (F : Nat) : Prop := ∀ (s : PState) (name : Str) (args : List Expr) (k : List Char),
+  TblOK x s → x = true → callNameB name = true → rtOKArgs x args = true → SepU k → s.n = 0 →
+  s.r.chars = joinWith [',', ' '] (printArgs args) ++ ')' :: k →
+  wp (parseCall F name) s (fun e' s' => e' = .call name args ∧ At s' k ∧ Same s s') IsFuel
+
+/-- The argument loop of `parseCall` after some arguments. -/
+def SpecA (x : Bool) (F : Nat) : Prop := ∀ (s : PState) (name : Str) (done rest : List Expr) (k : List Char),
+  TblOK x s → rtOKArgs x rest = true → SepU k → At s (printMore rest ++ ')' :: k) →
+  wp (callArgs F name done) s (fun e' s' => e' = .call name (done ++ rest) ∧ At s' k ∧ Same s s') IsFuel
+
+theorem natDigits_head_digit (n : Nat) : ∃ d dt, natDigits n = d :: dt ∧ isDigit d = true := by
+  have hne := natDigits_ne_nil n
+  cases h : natDigits n with
+  | nil => exact absurd h hne
+  | cons c t' => exact ⟨c, t', rfl, natDigits_all_digits n c (by rw [h]; simp)⟩
+
+/-- How the text of an operand of the class begins: not like a regex literal, a bound parameter or
+a comment, and its first token is neither `)` nor a bound parameter. -/
+theorem atom_start (a : Expr) (ha : rtOK x a = true) (hnb : NB a) (k : List Char) (hk : SepU k) :
+    NoRegexStart (a.print ++ k) ∧
+      ∀ r : Cursor, r.chars = a.print ++ k → (scan r).1.tok ≠ .RPAREN ∧ (scan r).1.tok ≠ .BOUNDPARAM := by
+  obtain ⟨x0, t0, hk0, hx1, hx2, hx3, _, _, _⟩ := sepU_head_facts hk
+  cases a with
+  | binary op l r => exact absurd rfl (hnb op l r)
+  | paren e =>
+    rw [print_paren]
+    refine ⟨nrs_of '(' _ (by decide), fun r hr => ?_⟩
+    rw [(scan_lparen r _ hr).1]; exact ⟨by decide, by decide⟩
+  | string v =>
+    have hv : Expressible v := exprB_expressible (by rw [rtOK] at ha; exact ha)
+    rw [print_string]
+    refine ⟨nrs_of '\'' _ (by decide), fun r hr => ?_⟩
+    rw [(scan_string_text r v k hv hr).1]; exact ⟨by decide, by decide⟩
+  | integer n =>
+    subst hk0
+    by_cases hpos : 0 ≤ n
+    · obtain ⟨m, rfl⟩ := Int.eq_ofNat_of_zero_le hpos
+      rw [print_integer_nat]
+      obtain ⟨d, dt, hd, hdd⟩ := natDigits_head_digit m
+      refine ⟨by rw [hd]; exact nrs_digit _ hdd, fun r hr => ?_⟩
+      rw [(scan_digits r (natDigits m) x0 t0 (natDigits_ne_nil m) (natDigits_all_digits m) hx1 hx2 hx3 hr).1]
+      exact ⟨by decide, by decide⟩
+    · rw [print_integer_neg n (by omega)]
+      obtain ⟨d, dt, hd, hdd⟩ := natDigits_head_digit n.natAbs
+      refine ⟨⟨'-', _, rfl, by decide, by decide, by decide, by decide, fun _ => ⟨d, dt ++ x0 :: t0, by rw [hd]; rfl, ?_⟩⟩,
+        fun r hr => ?_⟩
+      · intro e; subst e; revert hdd; decide
+      · rw [(scan_minus r d (dt ++ x0 :: t0) hdd (by rw [hr, hd]; rfl)).1]; exact ⟨by decide, by decide⟩
+  | unsigned v =>
+    subst hk0
+    rw [print_unsigned]
+    obtain ⟨d, dt, hd, hdd⟩ := natDigits_head_digit v
+    refine ⟨by rw [hd]; exact nrs_digit _ hdd, fun r hr => ?_⟩
+    rw [(scan_digits r (natDigits v) x0 t0 (natDigits_ne_nil v) (natDigits_all_digits v) hx1 hx2 hx3 hr).1]
+    exact ⟨by decide, by decide⟩
+  | boolean b =>
+    rw [print_boolean]
+    refine ⟨by cases b <;> exact nrs_identFirst _ (by decide), fun r hr => ?_⟩
+    rw [(scan_true_false r b k hk hr).1]
+    cases b <;> exact ⟨by decide, by decide⟩
+  | varRef v t =>
+    rw [rtOK] at ha
+    simp only [Bool.and_eq_true, beq_iff_eq] at ha
+    obtain ⟨hv, ht⟩ := ha
+    subst ht
+    rw [print_varRef]
+    simp only [if_true, List.append_nil]
+    refine ⟨?_, fun r hr => ?_⟩
+    · obtain ⟨c, t, hct, _, _⟩ := headOK_quoteIdent v
+      have hnr : NoRegexStart (quoteIdent [v]) := by
+        rw [C06.quoteIdent_single]
+        by_cases hq : (identNeedsQuotes v || v == []) = true
+        · rw [if_pos hq]; exact nrs_of '"' _ (by decide)
+        · rw [if_neg hq]
+          simp only [Bool.or_eq_true, not_or, Bool.not_eq_true, beq_eq_false_iff_ne, ne_eq] at hq
+          obtain ⟨hlk, c, tl, rfl, hc, htl⟩ := (identNeedsQuotes_false_iff v hq.2).mp hq.1
+          have hall : ∀ y ∈ c :: tl, isIdentChar y = true := by
+            intro y hy; simp at hy; rcases hy with rfl | hy
+            · exact (isIdentFirstChar_facts hc).2.2.1
+            · exact htl y hy
+          rw [C06.esc_identChars _ hall]
+          exact nrs_identFirst _ hc
+      obtain ⟨c, t, e, h1, h2, h3, h4, h5⟩ := hnr
+      rw [e]
+      exact ⟨c, t ++ k, rfl, h1, h2, h3, h4, fun hm => by
+        obtain ⟨d, t', e', hd⟩ := h5 hm
+        exact ⟨d, t' ++ k, by rw [e']; rfl, hd⟩⟩
+    · rw [(scan_ident_text r v k (exprB_expressible hv) hk.idEnd hr).1]; exact ⟨by decide, by decide⟩
+  | call name args =>
+    rw [rtOK] at ha
+    simp only [Bool.and_eq_true] at ha
+    obtain ⟨_, hlk, c, tl, rfl, hc, htl⟩ := callNameB_facts ha.1.2
+    rw [print_call]
+    refine ⟨by simpa using nrs_identFirst _ hc, fun r hr => ?_⟩
+    have := scan_word r c tl ('(' :: (joinWith [',', ' '] (printArgs args) ++ [')'] ++ k)) hc htl
+      (Or.inr ⟨'(', _, rfl, by decide, by decide, by decide⟩) (by rw [hr]; simp)
+    rw [this.1, hlk]; exact ⟨by decide, by decide⟩
+  | _ => simp [rtOK] at ha
+
+theorem expr_start (e : Expr) (he : rtOK x e = true) (k : List Char) (hk : SepC k) :
+    NoRegexStart (e.print ++ k) ∧
+      ∀ r : Cursor, r.chars = e.print ++ k → (scan r).1.tok ≠ .RPAREN ∧ (scan r).1.tok ≠ .BOUNDPARAM := by
+  obtain ⟨hfirst, hops⟩ := rtOK_chain e he
+  rw [print_chain e, List.append_assoc]
+  exact atom_start (firstA e) hfirst (firstA_nb e) _ (sepU_printOps _ k (fun p hp => (hops p hp).1) hk)
+
+theorem sepC_printMore (rest : List Expr) (k : List Char) : SepC (printMore rest ++ ')' :: k) := by
+  cases rest with
+  | nil => exact Or.inr ⟨k, Or.inl rfl⟩
+  | cons a rest => exact Or.inr ⟨_, Or.inr rfl⟩
+
+theorem rtOKArgs_cons {a : Expr} {rest : List Expr} (h : rtOKArgs x (a :: rest) = true) :
+    (regexLitB a = true ∨ rtOK x a = true) ∧ rtOKArgs x rest = true := by
+  rw [rtOKArgs] at h
+  simpa using h
+
+theorem specA_step (F : Nat) (ihE : SpecE x F) (ihA : SpecA x F) : SpecA x (F + 1) := by
+  intro s name done rest k htb hrest hk hat
+  rw [callArgs, wp_bind]
+  cases rest with
+  | nil =>
+    obtain ⟨lx, s1, r1, hrun, hsame, hj, _, htok⟩ := scanIW_close s (')' :: k) hat (Or.inr ⟨k, Or.inl rfl⟩)
+    rcases htok with ⟨h, _⟩ | ⟨t, ht, htk, hch⟩ | ⟨t, ht, _, _⟩
+    · cases h
+    · simp only [List.cons.injEq, true_and] at ht
+      subst ht
+      rw [wp_of_run_ok hrun, wp_ite, if_pos (by rw [htk]; decide), wp_bind, unscan_wp, wp_bind,
+        wp_of_run_ok (pscan_redeliver s1 lx r1 hj (by rw [htk]; decide))]
+      dsimp only
+      rw [wp_ite, if_neg (by rw [htk]; simp), wp_pure]
+      exact ⟨by simp, hj.at (Or.inl hch), hsame⟩
+    · cases ht
+  | cons a rest' =>
+    obtain ⟨ha, hrest'⟩ := rtOKArgs_cons hrest
+    obtain ⟨lx, s1, r1, hrun, hsame, hj, _, htok⟩ := scanIW_close s _ hat (Or.inr ⟨_, Or.inr rfl⟩)
+    rcases htok with ⟨h, _⟩ | ⟨t, ht, _, _⟩ | ⟨t, ht, htk, hch⟩
+    · cases h
+    · cases ht
+    · have ht' : t = ' ' :: (a.print ++ (printMore rest' ++ ')' :: k)) := by
+        simp only [printMore, List.cons_append, List.cons.injEq, true_and, List.append_assoc] at ht
+        exact ht.symm
+      subst ht'
+      rw [wp_of_run_ok hrun, wp_ite, if_neg (by rw [htk]; simp), wp_bind]
+      have hs1r : s1.r.chars = ' ' :: (a.print ++ (printMore rest' ++ ')' :: k)) := by rw [hj.2.2]; exact hch
+      rcases ha with ha | ha
+      · obtain ⟨src, rfl, hsrc⟩ := regexLitB_elim ha
+        obtain ⟨lx2, s2, hrun2, hj2, hch2, hsame2⟩ := parseRegex_text s1 src (printMore rest' ++ ')' :: k) hj.1 hsrc
+          (Or.inr (by rw [hs1r, print_regex]; simp))
+        rw [wp_of_run_ok hrun2]
+        dsimp only
+        refine wp_mono (ihA s2 name _ rest' k (htb.same (hsame.trans hsame2)) hrest' hk (hj2.at (Or.inl hch2))) ?_
+          (fun _ h => h)
+        intro e' s3 ⟨he', hat3, hsame3⟩
+        exact ⟨by rw [he']; simp, hat3, (hsame.trans hsame2).trans hsame3⟩
+      · obtain ⟨hnrs, _⟩ := expr_start a ha _ (sepC_printMore rest' k)
+        obtain ⟨s2, hrun2, hn2, hch2, hsame2⟩ := parseRegex_none s1 _ hj.1 hnrs (Or.inr hs1r)
+        rw [wp_of_run_ok hrun2]
+        dsimp only
+        rw [wp_bind]
+        refine wp_mono (ihE s2 a _ (htb.same (hsame.trans hsame2)) ha (sepC_printMore rest' k)
+          ⟨s2.r, Or.inl ⟨hn2, rfl⟩, Or.inl hch2⟩) ?_ (fun _ h => h)
+        intro e' s3 ⟨he', hat3, hsame3⟩
+        subst he'
+        refine wp_mono (ihA s3 name _ rest' k (htb.same ((hsame.trans hsame2).trans hsame3)) hrest' hk hat3) ?_
+          (fun _ h => h)
+        intro e'' s4 ⟨he'', hat4, hsame4⟩
+        exact ⟨by rw [he'']; simp, hat4, ((hsame.trans hsame2).trans hsame3).trans hsame4⟩
+
+theorem specC_step (F : Nat) (ihE : SpecE x F) (ihA : SpecA x F) : SpecC x (F + 1) := by
+  intro s name args k htb hx hname hargs hk hn hch
+  obtain ⟨hlow, _, _⟩ := callNameB_facts hname
+  rw [parseCall, wp_bind, wp_get]
+  dsimp only
+  rw [lowerStr_fix s.lowerTbl (htb hx) name hlow, wp_bind]
+  cases args with
+  | nil =>
+    have hch' : s.r.chars = ')' :: k := by simpa [printArgs, joinWith] using hch
+    obtain ⟨s2, hrun2, hn2, hch2, hsame2⟩ := parseRegex_none s (')' :: k) hn
+      (nrs_of ')' k (by decide)) (Or.inl hch')
+    rw [wp_of_run_ok hrun2]
+    dsimp only
+    have hclose := scan_close s2.r (')' :: k) (Or.inl hch2) (Or.inr ⟨k, Or.inl rfl⟩)
+    rcases hclose with ⟨h, _⟩ | ⟨t, ht, htk, hcht⟩ | ⟨t, ht, _, _⟩
+    · cases h
+    · simp only [List.cons.injEq, true_and] at ht
+      subst ht
+      obtain ⟨s3, hrun3, hj3, hsame3⟩ := pscan_look s2 s2.r (Or.inl ⟨hn2, rfl⟩) (by rw [htk]; decide)
+      rw [wp_bind, wp_of_run_ok hrun3, wp_ite, if_pos htk, wp_pure]
+      exact ⟨rfl, hj3.at (Or.inl hcht), hsame2.trans hsame3⟩
+    · cases ht
+  | cons a rest =>
+    obtain ⟨ha, hrest⟩ := rtOKArgs_cons hargs
+    rw [joinArgs_cons, List.append_assoc] at hch
+    rcases ha with ha | ha
+    · obtain ⟨src, rfl, hsrc⟩ := regexLitB_elim ha
+      obtain ⟨lx2, s2, hrun2, hj2, hch2, hsame2⟩ := parseRegex_text s src (printMore rest ++ ')' :: k) hn hsrc
+        (Or.inl (by rw [hch, print_regex]; simp))
+      rw [wp_of_run_ok hrun2]
+      dsimp only
+      refine wp_mono (ihA s2 name _ rest k (htb.same hsame2) hrest hk (hj2.at (Or.inl hch2))) ?_ (fun _ h => h)
+      intro e' s3 ⟨he', hat3, hsame3⟩
+      exact ⟨by rw [he']; simp, hat3, hsame2.trans hsame3⟩
+    · obtain ⟨hnrs, htoks⟩ := expr_start a ha _ (sepC_printMore rest k)
+      obtain ⟨s2, hrun2, hn2, hch2, hsame2⟩ := parseRegex_none s _ hn hnrs (Or.inl hch)
+      rw [wp_of_run_ok hrun2]
+      dsimp only
+      obtain ⟨htk1, htk2⟩ := htoks s2.r hch2
+      obtain ⟨s3, hrun3, hj3, hsame3⟩ := pscan_look s2 s2.r (Or.inl ⟨hn2, rfl⟩) htk2
+      rw [wp_bind, wp_of_run_ok hrun3, wp_ite, if_neg htk1, wp_bind, unscan_wp, wp_bind]
+      have hsm : Same s (unsc s3) := (hsame2.trans hsame3).trans (unsc_same s3)
+      refine wp_mono (ihE (unsc s3) a _ (htb.same hsm) ha (sepC_printMore rest k)
+        ⟨s2.r, look_unsc s3 s2.r hj3, Or.inl hch2⟩) ?_ (fun _ h => h)
+      intro e' s4 ⟨he', hat4, hsame4⟩
+      subst he'
+      refine wp_mono (ihA s4 name _ rest k (htb.same (hsm.trans hsame4)) hrest hk hat4) ?_ (fun _ h => h)
+      intro e'' s5 ⟨he'', hat5, hsame5⟩
+      exact ⟨by rw [he'']; simp, hat5, (hsm.trans hsame4).trans hsame5⟩
 
 /-- What the unary minus of `parseUnaryExpr` makes of a literal. -/
 def negOf : Expr → Expr
@@ -1243,7 +1541,7 @@ theorem natDigits_head (n : Nat) : HeadOK (natDigits n) := by
     have hc : isDigit c = true := hd c (by rw [h]; simp)
     exact ⟨c, t, rfl, (isDigit_facts hc).1, isDigit_ne_eof hc⟩
 
-theorem specU_step (F : Nat) (ihE : SpecE x F) (_ihU : SpecU x F) : SpecU x (F + 1) := by
+theorem specU_step (F : Nat) (ihE : SpecE x F) (_ihU : SpecU x F) (ihC : SpecC x F) : SpecU x (F + 1) := by
   intro s a k htb ha hnb hk hat
   cases a with
   | binary op l r => exact absurd rfl (hnb op l r)
@@ -1376,20 +1674,53 @@ theorem specU_step (F : Nat) (ihE : SpecE x F) (_ihU : SpecU x F) : SpecU x (F +
       (by rcases hsep with h | h | h | h <;> rw [h] <;> decide)
     rw [wp_of_run_ok hrun']
     exact ⟨by rw [hlit], ⟨r1, hlook, hq⟩, hsame.trans hsame'⟩
+  | call name args =>
+    rw [rtOK] at ha
+    simp only [Bool.and_eq_true] at ha
+    obtain ⟨⟨hx, hname⟩, hargs⟩ := ha
+    obtain ⟨_, hlk, c, tl, hnm, hc, htl⟩ := callNameB_facts hname
+    have hat' : AtW s (name ++ '(' :: (joinWith [',', ' '] (printArgs args) ++ ')' :: k)) := by
+      simpa [print_call] using hat
+    obtain ⟨lx, s1, r1, hrun, htok, hlit, hj, hq, hsame⟩ := scanIW_first s _ hat'
+      (by rw [hnm]; exact ⟨c, _, rfl, (isIdentFirstChar_facts hc).1, (isIdentFirstChar_facts hc).2.2.2.2⟩)
+      .IDENT name (fun r => r.chars = '(' :: (joinWith [',', ' '] (printArgs args) ++ ')' :: k))
+      (fun r hr => by
+        have := scan_word r c tl ('(' :: (joinWith [',', ' '] (printArgs args) ++ ')' :: k)) hc htl
+          (Or.inr ⟨'(', _, rfl, by decide, by decide, by decide⟩) (by rw [hr, hnm])
+        rw [← hnm, hlk] at this
+        exact ⟨this.1, by simpa using this.2.1, this.2.2.chars_of_cons (by decide)⟩)
+      ⟨by decide, by decide, by decide⟩
+    have hsig : lx.tok ≠ .BOUNDPARAM ∧ lx.tok ≠ .WS ∧ lx.tok ≠ .COMMENT := by rw [htok]; decide
+    have hnp : ¬ lx.tok = .LPAREN := by rw [htok]; decide
+    rw [parseUnaryExpr, wp_bind, wp_of_run_ok hrun, wp_ite, if_neg hnp, wp_bind, unscan_wp, wp_bind,
+      wp_of_run_ok (scanIW_redeliver s1 lx r1 hj hsig.1 hsig.2.1 hsig.2.2)]
+    obtain ⟨hlp, hchp⟩ := scan_lparen r1 _ hq
+    obtain ⟨s2, hrun2, hj2, hsame2⟩ := pscan_look s1 r1 (Or.inl ⟨hj.1, hj.2.2⟩) (by rw [hlp]; decide)
+    obtain ⟨tok, pos, lit⟩ := lx
+    simp only at htok hlit
+    subst htok hlit
+    dsimp only
+    rw [wp_bind, wp_of_run_ok hrun2, wp_ite, if_pos hlp]
+    refine wp_mono (ihC s2 lit args k (htb.same (hsame.trans hsame2)) hx hname hargs hk hj2.1
+      (by rw [hj2.2.2]; exact hchp)) ?_ (fun _ h => h)
+    intro e' s3 ⟨he', hat3, hsame3⟩
+    exact ⟨he', hat3, (hsame.trans hsame2).trans hsame3⟩
   | _ => simp [rtOK] at ha
 
-/-- The three specifications hold for every amount of fuel. -/
-theorem rt_specs (x : Bool) (F : Nat) : SpecE x F ∧ SpecL x F ∧ SpecU x F := by
+/-- The specifications hold for every amount of fuel. -/
+theorem rt_specs (x : Bool) (F : Nat) : SpecE x F ∧ SpecL x F ∧ SpecU x F ∧ SpecC x F ∧ SpecA x F := by
   induction F with
   | zero =>
-    refine ⟨?_, ?_, ?_⟩
+    refine ⟨?_, ?_, ?_, ?_, ?_⟩
     · intro s e k _ _ _ _; rw [parseExpr, wp_throw]; rfl
     · intro s root rest k _ _ _ _; rw [exprLoop, wp_throw]; rfl
     · intro s a k _ _ _ _ _; rw [parseUnaryExpr, wp_throw]; rfl
+    · intro s name args k _ _ _ _ _ _ _; rw [parseCall, wp_throw]; rfl
+    · intro s name done rest k _ _ _ _; rw [callArgs, wp_throw]; rfl
   | succ F ih =>
-    obtain ⟨ihE, ihL, ihU⟩ := ih
-    exact ⟨specE_step F ihU ihL, specL_step F ihU ihL, specU_step F ihE ihU⟩
-
+    obtain ⟨ihE, ihL, ihU, ihC, ihA⟩ := ih
+    exact ⟨specE_step F ihU ihL, specL_step F ihU ihL, specU_step F ihE ihU ihC, specC_step F ihE ihA,
+      specA_step F ihE ihA⟩
 
 /-! ## Part 7: the whole text -/
 
@@ -1436,6 +1767,17 @@ theorem binOps_noCR : ∀ op ∈ binOps, op.str.all (fun c => c != '\r') = true 
 
 /-- The printed form of an expression of the class contains no carriage return, so the reader
 delivers it unchanged. -/
+theorem noCR_regex (src : List Char) (hsrc : regexB src = true) : NoCR (Expr.regex src).print := by
+  rw [print_regex]
+  have hsl : NoCR ['/'] := by intro c hc; simp at hc; subst hc; decide
+  refine (hsl.append ?_).append hsl
+  intro c hc
+  obtain ⟨y, hy, hcy⟩ := List.mem_flatMap.mp hc
+  split at hcy
+  · simp at hcy; rcases hcy with rfl | rfl <;> decide
+  · simp at hcy; subst hcy; exact (regexB_facts hsrc).2.2.2 c hy
+
+mutual
 theorem print_noCR : ∀ e : Expr, rtOK x e = true → NoCR e.print
   | .binary op l r, h => by
     obtain ⟨h1, h3, h4, _, _⟩ := rtOK_binary h
@@ -1485,7 +1827,21 @@ theorem print_noCR : ∀ e : Expr, rtOK x e = true → NoCR e.print
     subst ht
     rw [print_varRef]
     simpa using noCR_quoteIdent v (exprB_expressible hv)
-  | .call _ _, h => by simp [rtOK] at h
+  | .call name args, h => by
+    rw [rtOK] at h
+    simp only [Bool.and_eq_true] at h
+    obtain ⟨_, _, c, tl, hnm, hc, htl⟩ := callNameB_facts h.1.2
+    rw [print_call]
+    have hname : NoCR name := by
+      intro y hy
+      have hi : isIdentChar y = true := by
+        rw [hnm] at hy; simp at hy; rcases hy with rfl | hy
+        · exact (isIdentFirstChar_facts hc).2.2.1
+        · exact htl y hy
+      intro e; subst e; revert hi; decide
+    have h1 : NoCR ['('] := by intro c hc; simp at hc; subst hc; decide
+    have h2 : NoCR [')'] := by intro c hc; simp at hc; subst hc; decide
+    exact ((hname.append h1).append (args_noCR args h.2)).append h2
   | .distinct _, h => by simp [rtOK] at h
   | .wildcard _, h => by simp [rtOK] at h
   | .regex _, h => by simp [rtOK] at h
@@ -1495,6 +1851,25 @@ theorem print_noCR : ∀ e : Expr, rtOK x e = true → NoCR e.print
   | .nil, h => by simp [rtOK] at h
   | .list _, h => by simp [rtOK] at h
   | .boundParam _, h => by simp [rtOK] at h
+theorem args_noCR : ∀ args : List Expr, rtOKArgs x args = true → NoCR (joinWith [',', ' '] (printArgs args))
+  | [], _ => by intro c hc; simp [printArgs, joinWith] at hc
+  | [a], h => by
+    obtain ⟨ha, _⟩ := rtOKArgs_cons h
+    show NoCR a.print
+    rcases ha with ha | ha
+    · obtain ⟨src, rfl, hsrc⟩ := regexLitB_elim ha
+      exact noCR_regex src hsrc
+    · exact print_noCR a ha
+  | a :: b :: rest, h => by
+    obtain ⟨ha, hr⟩ := rtOKArgs_cons h
+    show NoCR (a.print ++ [',', ' '] ++ joinWith [',', ' '] (printArgs (b :: rest)))
+    have hsep : NoCR [',', ' '] := by intro c hc; simp at hc; rcases hc with rfl | rfl <;> decide
+    refine (NoCR.append ?_ hsep).append (args_noCR (b :: rest) hr)
+    rcases ha with ha | ha
+    · obtain ⟨src, rfl, hsrc⟩ := regexLitB_elim ha
+      exact noCR_regex src hsrc
+    · exact print_noCR a ha
+end
 
 /-- **Print → parse.** For every expression `e` of the class, `ParseExpr` on the text `e.String()`
 returns `e` — whatever the bound parameters and the lower-casing table. -/
